@@ -17,7 +17,7 @@ LEVEL = 'exploration'
 TECHNIQUE = ('differential runtime monitor: real parser+evaluator vs reference Boolean evaluator over '
              'exhaustively enumerated sentences and all truth assignments; metamorphic variant monitor; overlapping and first-use calls under a deterministic line-level thread scheduler (sys.monitoring)')
 RULE = ('strata: A = every grammatical token sequence over {(,),and,or,not,check} up to the length bound, '
-        'leaves numbered left to right, and again with only one or two distinct leaves repeated; three leaf families (role checks, attribute checks, attribute names that begin with the letters of a keyword); B = random ASTs (<= ~60 tokens, leaf reuse, constants) each in '
+        'leaves numbered left to right, and again with only one or two distinct leaves repeated; three leaf families (role checks, attribute checks, attribute names that begin with the letters of a keyword); AK = every sentence up to 7 (thorough 9) tokens with every leaf position taken by a leaf, `@` or `!` (at least one constant); B = random ASTs (<= ~60 tokens, leaf reuse, constants) each in '
         'several lexical variants (keyword case, ASCII whitespace, glued parentheses, redundant groups); '
         'D = deeply nested legal expressions (1-40 chained not, alternating and/or/not towers of depth 2-25, within ~60 tokens); C = every list-of-lists shape (outer<=3, inner<=3) over {leaf, other leaf, @, !, bare string, '
         'empty entry}; K = constant rules; every seventh sentence of A is parsed immediately after a malformed rule (lone operator, unbalanced parenthesis, dangling operator ...) in the same thread; F = slice of A/B carried through real JSON and YAML policy files; every eleventh sentence of A is, after being decided, registered as the default of a policy with a deprecated predecessor in another enforcer (merged when enforce_new_defaults is off) and then parsed and decided again: the text must mean the same; stratum first-use: in a fresh interpreter per schedule two threads load and decide one rule each as the very first use of the library (first one pre-empted at the line boundaries that exist on first use only, and at sampled others); O = two threads each load and decide a rule - or both evaluate ONE parsed rule with wide and/or nodes - at the same time (second one runs at sampled line boundaries of the first, deterministic scheduler): results must be those of running them one after the other. '
@@ -35,7 +35,7 @@ LEVEL_TEXT = ('Every grammatical sentence up to 11 (thorough: 15) tokens and eve
 LEVEL_NOTE = ('trusted: the reference evaluator/recogniser in pv/gen/expr.py; leaf checks (role:, attribute) behave as '
               'C04/C05 state; only ASCII whitespace is generated')
 PLAN = {'quick': dict(shards=4, wall=120), 'thorough': dict(shards=16, wall=420)}
-MIN = {'first_use_schedules': 12, 'overlapping_evaluations': 200, 'shared_tree_overlaps': 4, 'reparsed_after_use_as_deprecated_default': 100, 'deep_cases': 20, 'parsed_after_malformed_rule': 100, 'sentences_with_repeated_leaves': 500, 'evaluations': 200, 'decisions': 2000, 'allow_decisions': 100, 'deny_decisions': 100}
+MIN = {'sentences_with_constants': 2000, 'first_use_schedules': 12, 'overlapping_evaluations': 200, 'shared_tree_overlaps': 4, 'reparsed_after_use_as_deprecated_default': 100, 'deep_cases': 20, 'parsed_after_malformed_rule': 100, 'sentences_with_repeated_leaves': 500, 'evaluations': 200, 'decisions': 2000, 'allow_decisions': 100, 'deny_decisions': 100}
 ANCHORS = ['oslo_policy.policy:Enforcer.enforce', 'oslo_policy._parser:parse_rule',
            'oslo_policy._parser:_parse_tokenize', 'oslo_policy._parser:_parse_list_rule',
            'oslo_policy._parser:ParseState._wrap_check', 'oslo_policy._parser:ParseState._make_and_expr',
@@ -46,8 +46,8 @@ ANCHORS = ['oslo_policy.policy:Enforcer.enforce', 'oslo_policy._parser:parse_rul
            'oslo_policy._checks:NotCheck.__call__']
 REQUIRED_ANCHORS = ['oslo_policy.policy:Enforcer.enforce']
 
-BOUNDS = {'quick': dict(L=11, nB=400, nvar=8, file_every=20),
-          'thorough': dict(L=15, nB=40000, nvar=10, file_every=20)}
+BOUNDS = {'quick': dict(L=11, LK=7, nB=400, nvar=8, file_every=20),
+          'thorough': dict(L=15, LK=9, nB=40000, nvar=10, file_every=20)}
 
 OVERLAPS = {'quick': 8, 'thorough': 150}        # pairs per shard
 
@@ -147,6 +147,26 @@ def check_case(ctx, real, case):
                               {'rule': text, 'expected': want, 'observed_when_parsed_again': again,
                                'in_between': 'registered as the default of a policy with a deprecated predecessor, loaded with '
                                              'enforce_new_defaults=%s, enforced once' % (not case['reuse_as_default'])})
+    elif s == 'AK':
+        toks, j, k = [], 0, 0
+        for t in case['toks']:
+            if t == 'c':
+                f = case['fill'][j]
+                j += 1
+                if f == 'c':
+                    toks.append(('leaf', k))
+                    k += 1
+                else:
+                    toks.append(('const', f == '@'))
+            else:
+                toks.append(t)
+        ast = expr.parse_tokens(toks)
+        text = ' '.join(leaf_text(t[1]) if isinstance(t, tuple) and t[0] == 'leaf' else ('@' if t[1] else '!') if isinstance(t, tuple) else t
+                        for t in toks)
+        want = ref_table(ast, k)
+        got = real.table(text, k, fam)
+        ctx.count('sentences_with_constants')
+        record(ctx, case, text, got, want, 'AK', key='constant-inside-expression-mismatch')
     elif s == 'B':
         ast = totuple(case['ast'])
         k = case['k']
@@ -468,6 +488,20 @@ def cases(ctx):
             yield case
     ctx.stratum('A', exhaustive=True)
     ctx.count('A_space_size_seen_by_this_shard', total)
+    # AK: the same sentences with every leaf position taken by a leaf, `@` or `!` (at least one constant): constants INSIDE
+    # expressions - `x or @ and y`, `not ! and x`, `( @ ) or x` - meet every reducer
+    kidx = 0
+    for n in range(1, b['LK'] + 1):
+        for seq in expr.sentences(n):
+            npos = sum(1 for t in seq if t == 'c')
+            for fill in itertools.product('c@!', repeat=npos):
+                if all(f == 'c' for f in fill):
+                    continue
+                kidx += 1
+                if not ctx.mine(kidx):
+                    continue
+                yield dict(s='AK', toks=list(seq), fill=''.join(fill), fam=('role', 'attr', 'kw')[kidx % 3])
+    ctx.stratum('AK', exhaustive=True)
     # D: deep nesting
     for i, (d, ast, k) in enumerate(deep_asts()):
         if ctx.mine(i):
